@@ -6,10 +6,13 @@ package c01
 
 import (
 	"bytes"
+	"crypto/ecdsa"
 	"crypto/x509"
+	"encoding/asn1"
 	"encoding/base64"
 	"encoding/json"
 	"fmt"
+	"math/big"
 	"math/rand/v2"
 	"strings"
 	"sync"
@@ -356,6 +359,63 @@ func boundaries(d *donor, yield func(Mutant)) {
 				}
 				yield(Mutant{MT: d.mt, Class: "boundary", Region: s.name, Desc: fmt.Sprintf("%s %s@%d (%s edge)", d.name, op, pos, s.name), Data: m})
 			}
+		}
+	}
+}
+
+// sigSubstitutes replaces the signature field by byte strings of suggestive
+// shapes: DER SEQUENCE{r,s} forms (of the genuine signature and of small
+// numbers), the other half of the ECDSA pair (r, n-s), zeros, padding.
+func sigSubstitutes(d *donor, yield func(Mutant)) {
+	var sig []byte
+	if d.mt == sims.JWS {
+		sig = d.jws.Sig
+	} else {
+		sig = d.cose.Sig
+	}
+	der := func(r, s *big.Int) []byte {
+		b, _ := asn1.Marshal(struct{ R, S *big.Int }{r, s})
+		return b
+	}
+	type sub struct {
+		name string
+		b    []byte
+	}
+	subs := []sub{{"empty", []byte{}}, {"der(1,1)", der(big.NewInt(1), big.NewInt(1))}, {"der(0,0)", der(big.NewInt(0), big.NewInt(0))},
+		{"zeros", make([]byte, len(sig))}, {"ones", bytes.Repeat([]byte{0xff}, len(sig))}, {"one-byte-short", sig[:len(sig)-1]},
+		{"leading-zero-added", append([]byte{0}, sig...)}, {"doubled", append(append([]byte{}, sig...), sig...)}, {"asn1-null", []byte{0x05, 0x00}}, {"empty-sequence", []byte{0x30, 0x00}}}
+	if pub, ok := d.ch.Certs[0].PublicKey.(*ecdsa.PublicKey); ok && len(sig)%2 == 0 {
+		h := len(sig) / 2
+		r, sv := new(big.Int).SetBytes(sig[:h]), new(big.Int).SetBytes(sig[h:])
+		subs = append(subs, sub{"der-of-the-genuine-signature", der(r, sv)})
+		other := new(big.Int).Sub(pub.Params().N, sv)
+		twin := make([]byte, len(sig))
+		copy(twin, sig[:h])
+		other.FillBytes(twin[h:])
+		subs = append(subs, sub{"ecdsa-twin(r,n-s)", twin}, sub{"der-of-the-twin", der(r, other)})
+	}
+	for _, x := range subs {
+		var data []byte
+		var err error
+		if d.mt == sims.JWS {
+			data, err = envcodec.BuildJWS(&envcodec.JWSBuild{ProtRaw: d.jws.ProtectedRaw, Payload: d.jws.Payload, Sig: x.b, Chain: d.jws.Chain, Agent: d.jws.Agent})
+		} else {
+			data, err = envcodec.BuildCOSE(&envcodec.COSEBuild{ProtMapRaw: d.cose.ProtectedMap, Payload: d.cose.Payload, Sig: x.b,
+				Unprot: []envcodec.KV{{K: envcodec.Int(envcodec.CX5Chain), V: envcodec.X5Chain(d.cose.Chain)}}})
+		}
+		if err != nil {
+			continue
+		}
+		yield(Mutant{MT: d.mt, Class: "boundary", Region: "signature", Desc: d.name + " signature := " + x.name, Data: data})
+		// and the same signature over a payload the key never signed
+		if d.mt == sims.JWS {
+			data, err = envcodec.BuildJWS(&envcodec.JWSBuild{ProtRaw: d.jws.ProtectedRaw, Payload: []byte(`{"never":"signed"}`), Sig: x.b, Chain: d.jws.Chain, Agent: d.jws.Agent})
+		} else {
+			data, err = envcodec.BuildCOSE(&envcodec.COSEBuild{ProtMapRaw: d.cose.ProtectedMap, Payload: []byte(`{"never":"signed"}`), Sig: x.b,
+				Unprot: []envcodec.KV{{K: envcodec.Int(envcodec.CX5Chain), V: envcodec.X5Chain(d.cose.Chain)}}})
+		}
+		if err == nil {
+			yield(Mutant{MT: d.mt, Class: "splice", Region: "parts", Desc: d.name + " foreign payload, signature := " + x.name, Data: data})
 		}
 	}
 }
@@ -791,7 +851,7 @@ func inAny(s []any, x any) bool {
 
 func run(r *core.Run) int {
 	r.Rule = "corpus of valid envelopes (JWS/COSE x key kinds x chain length 1..4 x both schemes x plain/rich) plus a look-alike family (same key+certificate, other key, same subject with other key, same key re-issued); " +
-		"mutants: single-bit flips (quick: every bit of one envelope per format, every 7th bit of the others; thorough: every bit of every member), random double flips inside the signed regions / signature, insert/delete/replace at every region edge, all 5^4 assignments of {protected, payload, signature, chain} from the family donors, chain edits and leaf substitutions, value-preserving and near-value-preserving re-encodings, base64url slack. " +
+		"mutants: single-bit flips (quick: every bit of one envelope per format, every 7th bit of the others; thorough: every bit of every member), random double flips inside the signed regions / signature, insert/delete/replace at every region edge, signature fields of suggestive shapes (DER forms, the ECDSA twin, zeros), all 5^4 assignments of {protected, payload, signature, chain} from the family donors, chain edits and leaf substitutions, value-preserving and near-value-preserving re-encodings, base64url slack. " +
 		"non-trivial = the mutant differs from its parent inside a signed region, or is a splice / substitution; distinct by content hash"
 	r.Assume("the oracle decodes with encoding/json, encoding/base64 and fxamacker/cbor; ECDSA/RSA-PSS verification is std crypto")
 	c := buildCorpus(!r.Quick())
@@ -836,6 +896,7 @@ func run(r *core.Run) int {
 		bitflips(d, stride, add)
 		decodedBitflips(d, stride, add)
 		boundaries(d, add)
+		sigSubstitutes(d, add)
 		// two flips at once, both inside what the signature covers or one there
 		// and one in the signature (errors that might cancel out)
 		doubleFlips(d, r.Rand("double/"+d.name), r.Pick(150, 6000), add)
